@@ -129,6 +129,38 @@ ExplainedByTrivialNegation(orig, res) ==
                ELSE IF Cardinality(H) <= 16 THEN few ELSE {}
   IN \E m \in cands : WF5(Redirect(orig, m)) /\ TT(Redirect(orig, m)) = TT(res)
 
+(***************************************************************************)
+(* kind "transformdeep": an operation that must preserve the function      *)
+(* (a pass, a pipeline, bench conversion, a copy) applied to a circuit with *)
+(* one path of more than a thousand gates.  c.orig / c.res projections,     *)
+(* c.order / c.res_order witness orders (operands first, checked on the    *)
+(* way), c.not_larger, c.types (allowed gate types of the result, <<>> =   *)
+(* any), c.what, c.exc.  Linear clauses only; the pass-specific             *)
+(* postconditions stay with the small cases.                               *)
+(***************************************************************************)
+DeepTransformFails(c) ==
+  IF c.exc # "" THEN {c.what \o "-raised:" \o c.exc}
+  ELSE LET all == AllRows(Len(c.orig.i))
+           GA == AsFcn(c.orig.g)
+           GB == AsFcn(c.res.g)
+           a == EvalChecked(GA, c.order, InputCols(c.orig), all)
+           b == EvalChecked(GB, c.res_order, IF c.res.i = c.orig.i THEN InputCols(c.orig) ELSE InputCols(c.res), all)
+       IN IF ~a.ok \/ ~(SeqSet(c.orig.o) \subseteq DOMAIN a.v) THEN {}          \* not decided (DRIFT)
+          ELSE FailSet(<<
+            <<c.what \o "-result-ill-formed", b.ok /\ SeqSet(c.res.o) \subseteq DOMAIN b.v /\ SeqSet(c.res_order) = DOMAIN GB>>,
+            <<c.what \o "-inputs-changed", c.res.i = c.orig.i>>,
+            <<c.what \o "-output-count-changed", Len(c.res.o) = Len(c.orig.o)>>,
+            <<c.what \o "-function-changed",
+                ~b.ok \/ ~(SeqSet(c.res.o) \subseteq DOMAIN b.v) \/ c.res.i # c.orig.i \/ Len(c.res.o) # Len(c.orig.o) \/
+                \A k \in DOMAIN c.orig.o : b.v[c.res.o[k]] = a.v[c.orig.o[k]]>>,
+            <<c.what \o "-more-gates", ~c.not_larger \/ Cardinality(DOMAIN GB) <= Cardinality(DOMAIN GA)>>,
+            <<c.what \o "-gate-type-outside-the-target-basis", c.types = <<>> \/ \A l \in DOMAIN GB : GB[l].t \in SeqSet(c.types)>>
+          >>)
+DeepTransformDrift(c) ==
+  IF c.exc # "" THEN {}
+  ELSE LET a == EvalChecked(AsFcn(c.orig.g), c.order, InputCols(c.orig), AllRows(Len(c.orig.i)))
+       IN IF a.ok THEN {} ELSE {"deep-case-witness-order-not-operands-first(undecided)"}
+
 (* Named deviation Dev_IncompleteCutFamily (known finding): the algorithm derives the member
    gates of a cut's cone from the cuts OTHER nodes were given.  If the supplied family is not
    closed - some gate w strictly inside the cone of a cut K of node v has no cut contained in
